@@ -22,6 +22,9 @@ theories/Model/ValueSummary.vos theories/Model/ValueSummary.vok theories/Model/V
 theories/Proofs/BVLemmas.vo theories/Proofs/BVLemmas.glob theories/Proofs/BVLemmas.v.beautified theories/Proofs/BVLemmas.required_vo: theories/Proofs/BVLemmas.v theories/Spec/BV.vo
 theories/Proofs/BVLemmas.vio: theories/Proofs/BVLemmas.v theories/Spec/BV.vio
 theories/Proofs/BVLemmas.vos theories/Proofs/BVLemmas.vok theories/Proofs/BVLemmas.required_vos: theories/Proofs/BVLemmas.v theories/Spec/BV.vos
+theories/Proofs/BddCanonProofs.vo theories/Proofs/BddCanonProofs.glob theories/Proofs/BddCanonProofs.v.beautified theories/Proofs/BddCanonProofs.required_vo: theories/Proofs/BddCanonProofs.v theories/Spec/GuardSem.vo theories/Proofs/BddProofs.vo theories/Proofs/GuardProofs.vo theories/Proofs/SummaryProofs.vo theories/Proofs/CoalesceProofs.vo theories/Proofs/IteImportProofs.vo theories/Proofs/HistoryProofs.vo
+theories/Proofs/BddCanonProofs.vio: theories/Proofs/BddCanonProofs.v theories/Spec/GuardSem.vio theories/Proofs/BddProofs.vio theories/Proofs/GuardProofs.vio theories/Proofs/SummaryProofs.vio theories/Proofs/CoalesceProofs.vio theories/Proofs/IteImportProofs.vio theories/Proofs/HistoryProofs.vio
+theories/Proofs/BddCanonProofs.vos theories/Proofs/BddCanonProofs.vok theories/Proofs/BddCanonProofs.required_vos: theories/Proofs/BddCanonProofs.v theories/Spec/GuardSem.vos theories/Proofs/BddProofs.vos theories/Proofs/GuardProofs.vos theories/Proofs/SummaryProofs.vos theories/Proofs/CoalesceProofs.vos theories/Proofs/IteImportProofs.vos theories/Proofs/HistoryProofs.vos
 theories/Proofs/BddProofs.vo theories/Proofs/BddProofs.glob theories/Proofs/BddProofs.v.beautified theories/Proofs/BddProofs.required_vo: theories/Proofs/BddProofs.v theories/Spec/GuardSem.vo
 theories/Proofs/BddProofs.vio: theories/Proofs/BddProofs.v theories/Spec/GuardSem.vio
 theories/Proofs/BddProofs.vos theories/Proofs/BddProofs.vok theories/Proofs/BddProofs.required_vos: theories/Proofs/BddProofs.v theories/Spec/GuardSem.vos
@@ -52,6 +55,6 @@ theories/Proofs/SummaryProofs.vos theories/Proofs/SummaryProofs.vok theories/Pro
 theories/Props/C06.vo theories/Props/C06.glob theories/Props/C06.v.beautified theories/Props/C06.required_vo: theories/Props/C06.v theories/Model/EvalImpl.vo theories/Proofs/EvalProofs.vo theories/Proofs/EvalImplProofs.vo
 theories/Props/C06.vio: theories/Props/C06.v theories/Model/EvalImpl.vio theories/Proofs/EvalProofs.vio theories/Proofs/EvalImplProofs.vio
 theories/Props/C06.vos theories/Props/C06.vok theories/Props/C06.required_vos: theories/Props/C06.v theories/Model/EvalImpl.vos theories/Proofs/EvalProofs.vos theories/Proofs/EvalImplProofs.vos
-theories/Props/C20.vo theories/Props/C20.glob theories/Props/C20.v.beautified theories/Props/C20.required_vo: theories/Props/C20.v theories/Spec/GuardSem.vo theories/Proofs/BddProofs.vo theories/Proofs/GuardProofs.vo theories/Proofs/SummaryProofs.vo theories/Proofs/CoalesceProofs.vo theories/Proofs/IteImportProofs.vo theories/Proofs/HistoryProofs.vo
-theories/Props/C20.vio: theories/Props/C20.v theories/Spec/GuardSem.vio theories/Proofs/BddProofs.vio theories/Proofs/GuardProofs.vio theories/Proofs/SummaryProofs.vio theories/Proofs/CoalesceProofs.vio theories/Proofs/IteImportProofs.vio theories/Proofs/HistoryProofs.vio
-theories/Props/C20.vos theories/Props/C20.vok theories/Props/C20.required_vos: theories/Props/C20.v theories/Spec/GuardSem.vos theories/Proofs/BddProofs.vos theories/Proofs/GuardProofs.vos theories/Proofs/SummaryProofs.vos theories/Proofs/CoalesceProofs.vos theories/Proofs/IteImportProofs.vos theories/Proofs/HistoryProofs.vos
+theories/Props/C20.vo theories/Props/C20.glob theories/Props/C20.v.beautified theories/Props/C20.required_vo: theories/Props/C20.v theories/Spec/GuardSem.vo theories/Proofs/BddProofs.vo theories/Proofs/GuardProofs.vo theories/Proofs/SummaryProofs.vo theories/Proofs/CoalesceProofs.vo theories/Proofs/IteImportProofs.vo theories/Proofs/HistoryProofs.vo theories/Proofs/BddCanonProofs.vo
+theories/Props/C20.vio: theories/Props/C20.v theories/Spec/GuardSem.vio theories/Proofs/BddProofs.vio theories/Proofs/GuardProofs.vio theories/Proofs/SummaryProofs.vio theories/Proofs/CoalesceProofs.vio theories/Proofs/IteImportProofs.vio theories/Proofs/HistoryProofs.vio theories/Proofs/BddCanonProofs.vio
+theories/Props/C20.vos theories/Props/C20.vok theories/Props/C20.required_vos: theories/Props/C20.v theories/Spec/GuardSem.vos theories/Proofs/BddProofs.vos theories/Proofs/GuardProofs.vos theories/Proofs/SummaryProofs.vos theories/Proofs/CoalesceProofs.vos theories/Proofs/IteImportProofs.vos theories/Proofs/HistoryProofs.vos theories/Proofs/BddCanonProofs.vos
